@@ -15,4 +15,5 @@ build() { # tags out
   fi
 }
 build verif check
+build verif,tiny check_tiny
 exec "$HERE/bin/check" "$@"
